@@ -72,6 +72,11 @@ def _coords(st, req_marker):
         res = [v[1] for k, v in facts.items() if v[0] == "iv" and k[0] == "call" and "Iterator::count" in k[1]
                and contains_bytes(k, name)]
         if not res:
+            # `more than one` asked as "is there a second value" (`nth(1).is_some()`): None -> 0 or 1, Some -> many
+            nth = [v[1] for k, v in facts.items() if k[0] == "discr" and k[1][0] == "call" and k[1][1].endswith("::nth") and contains_bytes(k, name)
+                   and "('int', 1)" in repr(k[1][-1:])]
+            if nth:
+                return {"many"} if nth[0] == frozenset(["Some"]) else ({"0", "1"} if nth[0] == frozenset(["None"]) else set(COUNT))
             return set(COUNT)
         out = set()
         if iv_contains(res[0], 0):
@@ -389,7 +394,7 @@ def rule_before_any_byte(ctx):
                       loc=body_loc(cp), detail=sorted(vals))
 
 
-TRUNCATING = ("take_while", "map_while", "take", "skip", "skip_while", "step_by", "scan", "nth", "last", "rev", "peekable", "fuse",
+TRUNCATING = ("take_while", "map_while", "take", "skip", "skip_while", "step_by", "scan", "last", "rev", "peekable", "fuse",
               "find", "find_map", "position", "try_fold", "try_for_each")
 
 
@@ -409,14 +414,18 @@ def rule_scans(ctx):
         b = prog.find(n)
         if ctx.require(b, R, "helper:" + n.split("::")[-1], n):
             bodies.append(b)
+    from .panics import reachable_from
+    scan_bodies = [x for x in reachable_from(prog, [an]) if not x.is_derived and ((x.impl_self or "").startswith("client::amended::AmendedRequest") or x.kind == "Closure")]
     seen = {}
-    for b in bodies:
+    for b in scan_bodies:
         for bb, t in b.calls():
             p = short(callee_path(t) or "")
             if "Iterator" in p or p.startswith("<") and " as Iterator>" in p:
                 seen.setdefault(p.split("::")[-1], []).append(b.short)
     bad = ["%s in %s" % (k, sorted(set(v))[0]) for k, v in sorted(seen.items()) if k in TRUNCATING]
-    need = {"any", "count", "filter"}
+    need = {"any", "filter"}
+    if not ({"count", "nth"} & set(seen)):
+        bad.append("no cardinality test (count / second element) on the per-name views")
     ctx.check(need <= set(seen) and not bad, R, "full-scans",
               "Host / Content-Length cardinality, first Content-Length and the chunked test scan every effective field of the name "
               "(adaptors used: %s; none truncates)" % ", ".join(sorted(seen)), loc=body_loc(an), detail=bad)
